@@ -18,6 +18,7 @@ import GdVerif.Run.Gs3
 import GdVerif.Run.Jc2m
 import GdVerif.Run.GenGs3
 import GdVerif.Run.GenJc2m
+import GdVerif.Run.Small
 /-
   gdmodel: the model behind a line protocol.
     gdmodel run        : reads `<id> <entry> <args…>` lines on stdin, prints `<id> <outcome>`
@@ -41,7 +42,8 @@ def allEntries : List (String × (List String → String)) := List.flatten [
   unreal2Entries,
   McDrv.minecraftEntries,
   gs3Entries,
-  jc2mEntries
+  jc2mEntries,
+  smallEntries
   ]
 
 def runLine (line : String) : String :=
@@ -76,7 +78,7 @@ def main (args : List String) : IO UInt32 := do
         | "mcjava" | "mcbedrock" | "mclegacy" | "mcauto" => McGen.genMinecraft suite seed n
         | "gs3" => genGs3 seed n
         | "jc2m" => genJc2m seed n
-        | _ => []
+        | s => (smallGen s seed n).getD []
       for l in lines do IO.println l
       return 0
     | _, _ => return 2
